@@ -107,7 +107,7 @@ theorem damage_detected_at (cfg : Cfg) (w w' m : Bytes) (p mode : Nat) (rp : Rec
     (hlen : w.length = w'.length) (hsep : w.headD 0 = WOP_SEP)
     (hp : (p, rp) ∈ walk w)
     (hsame : w.take (p + hdr rp) = w'.take (p + hdr rp))
-    (hdisj : ∀ q c' l', (q, Rec.sep c' l') ∈ walk w → q < p → q + 12 + l' ≤ p)
+    (hdisj : ∀ q c' l', (q, Rec.sep c' l') ∈ walk w → q < p → q + 12 + l' ≤ p + hdr rp)
     (hbad : ∀ x, (applyB cfg rp (body rp (w'.drop p)) x).1 = .corrupted)
     (hok : (replay cfg 0 w m).rc = .ok)
     (hmode : mode = 2 ∨ (mode = 1 ∧ (prescan w').2 = 0)) :
@@ -166,7 +166,8 @@ theorem crc_detects_partial (cfg : Cfg) (hcrc : cfg.crcOn = true) (w w' m : Byte
     (hmode : mode = 2 ∨ (mode = 1 ∧ (prescan w').2 = 0)) :
     (rollforward cfg mode 0 w' m).rc = .corrupted ∨
       ∃ f, (f = 0 ∨ (f, Rec.savepoint) ∈ walk w) ∧ rollforward cfg mode 0 w' m = ⟨.ok, stateAt cfg w m f⟩ := by
-  apply damage_detected_at cfg w w' m p mode (Rec.sep c len) hlen hsep hp (by simpa [hdr] using hsame) hdisj _ hok hmode
+  apply damage_detected_at cfg w w' m p mode (Rec.sep c len) hlen hsep hp (by simpa [hdr] using hsame)
+    (fun q c' l' hq hlt => by have := hdisj q c' l' hq hlt; simp only [hdr]; omega) _ hok hmode
   intro x
   have hb : cfg.crc (body (Rec.sep c len) (w'.drop p)) ≠ c := by
     simpa [body, sz_WBSEP, List.drop_drop, Nat.add_comm] using hdetect
@@ -174,18 +175,21 @@ theorem crc_detects_partial (cfg : Cfg) (hcrc : cfg.crcOn = true) (w w' m : Byte
 
 /-- **Checksums (partial), payloads.**  The same for the payload of a `WBWRITE` record at `p` with stored checksum
 `c ≠ 0` (this is what protects a payload that `_write_wl` put *outside* its segment): header intact, the `len` bytes
-now following it no longer hash to `c` ⇒ recovery fails with `corrupted` or ends in a savepoint state before `p`. -/
+now following it no longer hash to `c` ⇒ recovery fails with `corrupted` or ends in a savepoint state before `p`.
+`hdisj`: every earlier segment, the one holding this header included, ends no later than the header does — the
+situation of a payload outside its segment; a write in the middle of a segment is covered by that segment's checksum. -/
 theorem crc_detects_payload_partial (cfg : Cfg) (hcrc : cfg.crcOn = true) (w w' m : Bytes) (p c len off mode : Nat)
     (hlen : w.length = w'.length) (hsep : w.headD 0 = WOP_SEP)
     (hp : (p, Rec.write c len off) ∈ walk w) (hc : c ≠ 0)
     (hsame : w.take (p + 20) = w'.take (p + 20))
-    (hdisj : ∀ q c' l', (q, Rec.sep c' l') ∈ walk w → q < p → q + 12 + l' ≤ p)
+    (hdisj : ∀ q c' l', (q, Rec.sep c' l') ∈ walk w → q < p → q + 12 + l' ≤ p + 20)
     (hdetect : cfg.crc ((w'.drop (p + 20)).take len) ≠ c)
     (hok : (replay cfg 0 w m).rc = .ok)
     (hmode : mode = 2 ∨ (mode = 1 ∧ (prescan w').2 = 0)) :
     (rollforward cfg mode 0 w' m).rc = .corrupted ∨
       ∃ f, (f = 0 ∨ (f, Rec.savepoint) ∈ walk w) ∧ rollforward cfg mode 0 w' m = ⟨.ok, stateAt cfg w m f⟩ := by
-  apply damage_detected_at cfg w w' m p mode (Rec.write c len off) hlen hsep hp (by simpa [hdr] using hsame) hdisj _ hok hmode
+  apply damage_detected_at cfg w w' m p mode (Rec.write c len off) hlen hsep hp (by simpa [hdr] using hsame)
+    (fun q c' l' hq hlt => by have := hdisj q c' l' hq hlt; simp only [hdr]; omega) _ hok hmode
   intro x
   have hb : cfg.crc (body (Rec.write c len off) (w'.drop p)) ≠ c := by
     simpa [body, sz_WBWRITE, List.drop_drop, Nat.add_comm] using hdetect
@@ -290,6 +294,21 @@ theorem prescan_cut_savepoint (w : Bytes) (n : Nat) (hn : n ≤ w.length) :
   · intro hsep hclosed s hs hsn
     exact prescanAux_cut_ge w.length w n 0 true 0 0 s hn (fun _ => hsep) hs (by omega)
       (fun p c l hp hlt => hclosed p c l s hp hs hlt)
+
+/-- the executable disjointness test run on every real log gives the `hdisj` hypothesis of `crc_detects_partial` -/
+theorem segDisjointB_sound (w : Bytes) (h : segDisjointB w = true) (p c len : Nat) (hp : (p, Rec.sep c len) ∈ walk w) :
+    ∀ q c' l', (q, Rec.sep c' l') ∈ walk w → q < p → q + 12 + l' ≤ p := by
+  intro q c' l' hq hlt
+  unfold segDisjointB at h
+  rw [List.all_eq_true] at h
+  have h1 := h (q, Rec.sep c' l') hq
+  simp only [] at h1
+  rw [List.all_eq_true] at h1
+  have h2 := h1 (p, Rec.sep c len) hp
+  simp only [Bool.or_eq_true, Bool.not_eq_true', decide_eq_false_iff_not, decide_eq_true_eq] at h2
+  rcases h2 with h2 | h2
+  · exact absurd hlt h2
+  · exact h2
 
 /-- the executable test the correspondence check runs on every real log implies the hypothesis of `recover_cut` -/
 theorem segClosedB_sound (w : Bytes) (h : segClosedB w = true) : SegClosed w := by
